@@ -44,6 +44,11 @@ func Load(opts *LoaderOptions) (*types.Project, error) {
 	if err != nil {
 		return nil, err
 	}
+	if mergedProject.LogLength == 0 {
+		// the default is applied to the merged result: applied per file it made every
+		// later file override the log_length of the earlier ones
+		mergedProject.LogLength = defaultLogLength
+	}
 	mergedProject.FileNames = opts.FileNames
 	mergedProject.EnvFileNames = opts.EnvFileNames
 	mergedProject.IsTuiDisabled = opts.isTuiDisabled || mergedProject.IsTuiDisabled
@@ -141,9 +146,7 @@ func loadProjectFromFile(inputFile string, opts *LoaderOptions) (*types.Project,
 	temp = os.ExpandEnv(temp)
 	temp = strings.ReplaceAll(temp, envEscaped, "$")
 
-	project := &types.Project{
-		LogLength: defaultLogLength,
-	}
+	project := &types.Project{}
 	err = yaml.Unmarshal([]byte(temp), project)
 	if err != nil {
 		if opts.IsInternalLoader {
